@@ -266,12 +266,16 @@ Qed.
 (* ---------------------------------------------------------------------------------------------- *)
 (* C04: the handler phase                                                                           *)
 (* ---------------------------------------------------------------------------------------------- *)
+(* a handler's turn: it is started, or the set-up of its node fails (it is marked failed and not run) *)
+Definition hturn_of (l : label) : list handler := match l with HStart h | HSetupFail h => [h] | _ => [] end.
+Definition hturns (ls : list label) : list handler := flat_map hturn_of ls.
+(* the handlers whose command is started *)
 Definition hstart_of (l : label) : list handler := match l with HStart h => [h] | _ => [] end.
 Definition hstarts (ls : list label) : list handler := flat_map hstart_of ls.
 (* labels of the scheduling loop and of the step workers *)
 Definition is_node_label (l : label) : bool :=
   match l with
-  | SigFlag | SigNode _ | Timeout | HBegin | HStart _ | HEnd _ _ | HSkip _ | HFinish => false
+  | SigFlag | SigNode _ | Timeout | HBegin | HStart _ | HEnd _ _ | HSkip _ | HSetupFail _ | HFinish => false
   | _ => true end.
 Definition expected (todo : list handler) (cur : bool) : list handler := if cur then tl todo else todo.
 Definition gone (s : state) : Prop := forall i, i < n -> worker_gone (nd s i) = true.
@@ -300,7 +304,7 @@ Definition exp_of (p : lpc) : list handler := match p with LHandlers todo cur =>
 (* one label in the handler phase (or after Done) *)
 Lemma handler_phase_step s l s' : in_hphase (pc s) = true -> gone s -> step s l = Some s' ->
   is_node_label l = false /\ gone s' /\ in_hphase (pc s') = true /\
-  (dry c = false -> hstart_of l ++ exp_of (pc s') = exp_of (pc s)).
+  (dry c = false -> hturn_of l ++ exp_of (pc s') = exp_of (pc s)).
 Proof.
   intros Hph Hg Hs.
   destruct (pc s) as [| | |todo cur|] eqn:Hpc; try discriminate Hph.
@@ -319,13 +323,13 @@ Proof.
   all: try (split; [intros j Hj; specialize (Hg j Hj); unfold worker_gone in *; cbn [nd];
                     match goal with |- context [j =? ?k] => destruct (Nat.eqb_spec j k) as [->|Hne]; [|exact Hg] end;
                     nsimpl; exact Hg|]; split; [reflexivity|]; intros; reflexivity).
-  (* HStart *)
-  split; [exact Hg|]. split; [reflexivity|]. intros _. cbn. destruct h, h0; try discriminate; reflexivity.
+  (* HStart, HSetupFail *)
+  all: split; [exact Hg|]; split; [reflexivity|]; intros _; cbn; destruct h, h0; try discriminate; reflexivity.
 Qed.
 
 Lemma handler_phase_run ls : forall s s', in_hphase (pc s) = true -> gone s ->
   run c s ls = Some s' -> dry c = false ->
-  hstarts ls ++ exp_of (pc s') = exp_of (pc s) /\ forallb (fun l => negb (is_node_label l)) ls = true /\
+  hturns ls ++ exp_of (pc s') = exp_of (pc s) /\ forallb (fun l => negb (is_node_label l)) ls = true /\
   in_hphase (pc s') = true.
 Proof.
   induction ls as [|l ls IH]; intros s s' Hph Hg Hr Hdry.
@@ -334,7 +338,7 @@ Proof.
     destruct (handler_phase_step s l s1 Hph Hg Hs) as (Hnl & Hg1 & Hph1 & He).
     destruct (IH s1 s' Hph1 Hg1 Hr Hdry) as (Hh & Hf & Hp').
     split; [|split; [cbn [forallb]; rewrite Hnl, Hf; reflexivity|exact Hp']].
-    cbn [hstarts flat_map]. fold (hstarts ls). rewrite <- app_assoc, Hh. apply He; assumption.
+    cbn [hturns flat_map]. fold (hturns ls). rewrite <- app_assoc, Hh. apply He; assumption.
 Qed.
 
 Lemma handlers_for_shape s : exists x, handlers_for c s = filter (hon c) (x ++ [HExit]) /\
@@ -347,7 +351,7 @@ Proof. eexists. split; reflexivity. Qed.
 Theorem handlers_trace ls1 ls2 s1 s2 s3 :
   run c (init c) ls1 = Some s1 -> step s1 HBegin = Some s2 -> run c s2 ls2 = Some s3 ->
   pc s3 = LDone -> dry c = false ->
-  hstarts ls1 = [] /\ hstarts ls2 = handlers_for c s1 /\
+  hturns ls1 = [] /\ hturns ls2 = handlers_for c s1 /\
   forallb (fun l => negb (is_node_label l)) ls2 = true /\ gone s1.
 Proof.
   intros H1 H2 H3 Hd Hdry.
@@ -365,7 +369,7 @@ Proof.
   (* no handler starts before HBegin: HStart needs pc = LHandlers, which only HBegin establishes *)
   clear - H1 Hp1 Hnorep.
   assert (Hgen : forall ls s, in_hphase (pc s) = false -> forall s', run c s ls = Some s' -> in_hphase (pc s') = false ->
-             hstarts ls = []).
+             hturns ls = []).
   { induction ls as [|l ls IH]; intros s Hp s' Hr Hp'; [reflexivity|].
     simpl in Hr. destruct (step s l) as [sx|] eqn:Hs; [|discriminate].
     destruct (in_hphase (pc sx)) eqn:Epx.
@@ -375,8 +379,8 @@ Proof.
         simpl in Hr. destruct (Model.step c s l2) as [sy|] eqn:Hs2; [|discriminate]. eapply IH2; [|exact Hr].
         eapply hphase_mono; eauto. }
       rewrite (Hstay ls sx Epx s' Hr) in Hp'. discriminate.
-    - cbn [hstarts flat_map]. fold (hstarts ls). rewrite (IH sx Epx s' Hr Hp'), app_nil_r.
-      destruct l; try reflexivity. exfalso. cbn [Model.step] in Hs.
+    - cbn [hturns flat_map]. fold (hturns ls). rewrite (IH sx Epx s' Hr Hp'), app_nil_r.
+      destruct l; try reflexivity; exfalso; cbn [Model.step] in Hs;
       destruct (pc s); try discriminate Hs; discriminate Hp. }
   apply (Hgen ls1 (init c) eq_refl s1 H1). rewrite Hp1. reflexivity.
 Qed.
@@ -563,11 +567,24 @@ Proof.
     destruct (step c s (WExecStart i)) as [s1|] eqn:Hs; [|discriminate].
     pose proof (no_new_start b s1 s' (canceled_mono_g _ _ _ Hs Hc) Hr i Hin) as X.
     cbn [step] in Hs. destruct (ph (nd s i)); try discriminate.
-    destruct ((i <? n) && negb (dry c) && negb (timedout s)); [|discriminate]. injection Hs as <-.
+    destruct ((i <? n) && negb (dry c) && negb (timedout s) && negb (create_fails c s i)); [|discriminate]. injection Hs as <-.
     unfold set_nd, upd in X. cbn [nd] in X. rewrite Nat.eqb_refl in X. discriminate.
   - change (run c s (l :: (a ++ WExecStart i :: b)) = Some s') in Hr. cbn [run] in Hr.
     destruct (step c s l) as [s1|] eqn:Hs; [|discriminate].
     exact (IH s1 (canceled_mono_g _ _ _ Hs Hc) Hr Hin).
+Qed.
+
+(* the handlers whose command is started are those whose turn came and whose set-up does not fail *)
+Lemma starts_of_turns ls : forall s s', run c s ls = Some s' ->
+  hstarts ls = filter (fun h => negb (hsfail c h)) (hturns ls).
+Proof.
+  induction ls as [|l ls IH]; intros s s' Hr; [reflexivity|].
+  simpl in Hr. destruct (step c s l) as [s1|] eqn:Hs; [|discriminate].
+  cbn [hstarts hturns flat_map]. fold (hstarts ls). fold (hturns ls).
+  rewrite filter_app, <- (IH s1 s' Hr). f_equal.
+  destruct l; try reflexivity; cbn [step] in Hs; inv_guard Hs; split_guard; cbn [hstart_of hturn_of filter].
+  - match goal with H : hsfail c _ = false |- _ => rewrite H end. reflexivity.
+  - match goal with H : hsfail c _ = true |- _ => rewrite H end. reflexivity.
 Qed.
 
 (* a repeating step is not signalled: the pass skips it *)
@@ -650,9 +667,9 @@ Qed.
 
 (* ... a chosen handler's command does start after a timeout *)
 Lemma handler_starts_after_timeout s h t0 : pc s = LHandlers (h :: t0) false -> dry c = false ->
-  exists s', step c s (HStart h) = Some s'.
+  hsfail c h = false -> exists s', step c s (HStart h) = Some s'.
 Proof.
-  intros Hp Hd. cbn [step]. rewrite Hp, Hd.
+  intros Hp Hd Hf. cbn [step]. rewrite Hp, Hd, Hf.
   assert (handler_eqb h h = true) as -> by (destruct h; reflexivity). eexists. reflexivity.
 Qed.
 
